@@ -86,14 +86,21 @@ def probes_exact(rng, m):
         p = base()
         a = rng.randrange(nd)
         j = rng.randint(0, n[a])
-        cls = rng.choice(["centre", "face", "face+", "face-", "corner", "hi+tau/2", "hi+tau", "hi+2tau",
-                          "lo-tau/2", "lo-2tau", "far", "interior"])
+        cls = rng.choice(["centre", "face", "face+", "face-", "face+tiny", "face-tiny", "corner", "hi+tau/2", "hi+tau",
+                          "hi+2tau", "lo-tau/2", "lo-2tau", "far", "interior"])
         if cls == "face":
             p[a] = lo[a] + j * cell[a]
         elif cls == "face+":
             p[a] = lo[a] + j * cell[a] + cell[a] / 1024
         elif cls == "face-":
             p[a] = lo[a] + j * cell[a] - cell[a] / 1024
+        elif cls in ("face+tiny", "face-tiny"):
+            # an interior face missed by 2^-33 .. 2^-44 of a cell (still exactly representable)
+            jj = rng.randint(1, n[a] - 1) if n[a] > 1 else 0
+            d = cell[a] / 2 ** rng.choice([33, 36, 40, 44])
+            p[a] = lo[a] + jj * cell[a] + (d if cls == "face+tiny" else -d)
+            if n[a] == 1:
+                p[a] = lo[a] + cell[a] / 2 + d
         elif cls == "corner":
             p = [rng.choice([lo[b], hi[b]]) for b in range(nd)]
         elif cls.startswith("hi+"):
@@ -185,6 +192,29 @@ def gen_bycell(rng, exact):
                 cell=[S(x) for x in c], tf=S(tf), cls=cls)
 
 
+def gen_bycell_large(rng):
+    """many cells along one axis: a leftover of a fraction of a cell must still be refused"""
+    nd = rng.choice([1, 1, 2, 3])
+    p1, p2, c, cls = [], [], [], []
+    big = rng.randrange(nd)
+    for a in range(nd):
+        cell = F(rng.choice([1, 3, 5]), 2 ** rng.randint(0, 3))
+        lo = F(rng.randint(-64, 64), 4)
+        if a == big:
+            k = rng.choice([1000, 2000, 4096, 50000, 100000, 10 ** 6])
+            kind = rng.choice(["multiple", "multiple", "+1/64", "+1/4", "half", "-1/8"])
+        else:
+            k = rng.randint(1, 9)
+            kind = "multiple"
+        frac = {"multiple": 0, "+1/64": F(1, 64), "+1/4": F(1, 4), "half": F(1, 2), "-1/8": -F(1, 8)}[kind]
+        p1.append(lo)
+        p2.append(lo + (k + frac) * cell)
+        c.append(cell)
+        cls.append(kind + ("/big" if a == big else ""))
+    return dict(kind="bycell", exact=True, p1=[S(x) for x in p1], p2=[S(x) for x in p2],
+                cell=[S(x) for x in c], tf=S(F(1, 2 ** 40)), cls=cls)
+
+
 def generate(rng, tier):
     nm = 40 if tier == "quick" else 400
     cases = []
@@ -212,6 +242,8 @@ def generate(rng, tier):
             cases.append(dict(kind="lattice", mesh=m))
     for k in range(nm * 2):
         cases.append(gen_bycell(rng, exact=(k % 2 == 0)))
+    for k in range(nm // 2):
+        cases.append(gen_bycell_large(rng))
     return cases
 
 
@@ -277,7 +309,9 @@ def run_case(c):
         near = all(min(f_, cc - f_) <= tolq * F(99, 100) for f_, cc in zip(fracs, cl))
         clear_bad = any(tolq * F(101, 100) < f_ < cc - tolq * F(101, 100) for f_, cc in zip(fracs, cl))
         rounded = [int(math.floor(r + F(1, 2))) for r in ratios]
-        if near and all(k >= 1 for k in rounded):
+        # (an edge shorter than the cell is refused by the 'cell exceeds region' test even inside the 0.1 % band:
+        #  the property only promises a mesh for a whole number of cells, so nothing is demanded there)
+        if near and all(k >= 1 for k in rounded) and all(ee >= cc for ee, cc in zip(e, cl)):
             if st != "ok":
                 rec["oracle"].append("commensurate-cell-rejected")
             elif [int(x) for x in m.n] != rounded:
